@@ -21,6 +21,19 @@ def _confirm(prop, v):
     return out, None
 
 
+def _reproduces_in_full_run(prop, tier, seed, case_id):
+    import tempfile
+    import shutil
+    tmp = tempfile.mkdtemp(prefix='verif-rerun-')
+    try:
+        env = dict(os.environ, VERIF_EVIDENCE_DIR=os.path.join(tmp, 'evidence'), VERIF_REPLAY_DIR=os.path.join(tmp, 'replays'))
+        p = subprocess.run([sys.executable, '-m', 'mc.main', prop, '--tier', tier, '--seed', str(seed), '--no-confirm'],
+                           capture_output=True, text=True, cwd=core.VERIF, env=env, timeout=6 * 3600)
+        return any(line.startswith('  case {}:'.format(case_id)) for line in p.stdout.splitlines())
+    finally:
+        shutil.rmtree(tmp, ignore_errors=True)
+
+
 def main(argv=None):
     ap = argparse.ArgumentParser()
     ap.add_argument('prop')
@@ -102,9 +115,17 @@ def main(argv=None):
                     print('BROKEN-CHECK property={} {}'.format(prop, err), file=sys.stderr)
                     return 2
                 if not out:
-                    print('BROKEN-CHECK property={} violation {} did not reproduce in a fresh process (nondeterminism): {}'.format(
-                        prop, v['case_id'], v['detail']), file=sys.stderr)
-                    return 2
+                    # The case alone holds in a fresh process.  Either the exploration is nondeterministic (broken check), or
+                    # the implementation carries state from one case to the next (a cache, a module-level table), in which case
+                    # the whole exploration - a fixed enumeration order - reproduces it: run it again in a fresh process.
+                    if not _reproduces_in_full_run(prop, ns.tier, ns.seed, v['case_id']):
+                        print('BROKEN-CHECK property={} violation {} did not reproduce in a fresh process (nondeterminism): {}'.format(
+                            prop, v['case_id'], v['detail']), file=sys.stderr)
+                        return 2
+                    v['detail'] += ' [history-dependent: holds when this case is run alone in a fresh process, fails again at the same ' \
+                                   'point of a second complete exploration - the implementation keeps state between cases]'
+                    v['case'] = dict(v['case'], history_dependent=True) if isinstance(v['case'], dict) else v['case']
+                    ns.no_confirm = True
             path = core.write_replay(prop, v)
             print('  case {}: {}'.format(v['case_id'], v['detail']))
             print('VIOLATION property={} replay={}'.format(prop, path))
